@@ -42,9 +42,14 @@ def collect(wt, mid, prop):
     good &= step("with change: unit tests", "cargo test --offline --lib", True)
     good &= step("with change: doc tests", "cargo test --offline --doc", True)
     good &= step("with change: demo", "cargo test --offline --test %s" % name, False)
-    sh("git stash push -- src Cargo.toml", cwd=wt)
-    good &= step("without change: demo", "cargo test --offline --test %s" % name, True)
-    sh("git stash pop", cwd=wt)
+    # (no `git stash`: the stash is shared by all worktrees of /repo)
+    pf = os.path.join(d, "patch.diff")
+    rc, out = sh(["git", "apply", "-R", pf], cwd=wt)
+    assert rc == 0, out
+    try:
+        good &= step("without change: demo", "cargo test --offline --test %s" % name, True)
+    finally:
+        sh(["git", "apply", pf], cwd=wt)
     meta = dict(id=mid, property=prop, confirmed=bool(good), demo=demo, ran=ran,
                 needs=open(os.path.join(d, "MUTATION.md")).read()[:3000] if os.path.exists(os.path.join(d, "MUTATION.md")) else "")
     json.dump(meta, open(os.path.join(d, "meta.json"), "w"), indent=1)
